@@ -1177,10 +1177,16 @@ func run20(r *mon.Run) {
 		os.WriteFile(cp, content, 0o644)
 		out := filepath.Join(scratch, fmt.Sprintf("s%d.sxg", s))
 		uri := "https://example.com/" + mon.Pick(g, []string{"index.html", "a%20b", "x?y=1", ""})
-		status := mon.Pick(g, []int{200, 200, 203, 404})
+		// every status a shared cache may store by default (RFC 7231 6.1), in a third of the cases without any freshness
+		// information of its own
+		status := mon.Pick(g, []int{200, 200, 203, 404, 204, 206, 300, 301, 405, 410, 414, 501})
+		withCC := s%3 != 2
 		args := []string{"-uri", uri, "-version", ver, "-status", fmt.Sprint(status), "-content", cp, "-certificate", m.certPEM, "-certUrl", "https://example.com/cert.cbor",
 			"-validityUrl", "https://example.com/resource.validity", "-privateKey", kf.path, "-miRecordSize", fmt.Sprint(rs), "-expire", "24h", "-o", out,
-			"-responseHeader", "X-Custom: value", "-responseHeader", "cache-control: max-age=100"}
+			"-responseHeader", "X-Custom: value"}
+		if withCC {
+			args = append(args, "-responseHeader", "cache-control: max-age=100")
+		}
 		// every fourth exchange has response fields given on several lines (the tool holds them as separate field lines, the
 		// file carries them comma-joined): a second Cache-Control line whose no-cache argument names a field that is present
 		repeated := s%4 == 1
@@ -1280,7 +1286,7 @@ func run20(r *mon.Run) {
 						if ex.Status != status {
 							bad = fmt.Sprintf("status %d in the file, -status %d", ex.Status, status)
 						}
-						if repeated && (ex.RespHeaders["x-multi"] != "one,two" || ex.RespHeaders["x-session"] != "abc" || ex.RespHeaders["cache-control"] != `max-age=100,no-cache="X-Session"`) {
+						if repeated && (ex.RespHeaders["x-multi"] != "one,two" || ex.RespHeaders["x-session"] != "abc" || ex.RespHeaders["cache-control"] != map[bool]string{true: `max-age=100,no-cache="X-Session"`, false: `no-cache="X-Session"`}[withCC]) {
 							bad = fmt.Sprintf("response fields given on several -responseHeader lines are not in the file comma-joined: %v", ex.RespHeaders)
 						}
 						if ex.RespHeaders["x-custom"] != "value" {
@@ -1396,6 +1402,42 @@ func run20(r *mon.Run) {
 		os.Remove(cp)
 		os.Remove(out)
 	}
+	// ---- (D2) status sweep: every status a shared cache may store by default, signed without any freshness information
+	// of its own (and with "public"): gen-signedexchange accepts the documented flag value and what it writes verifies
+	if r.Shard == 2%r.NShards {
+		cp := filepath.Join(scratch, "status-sweep.bin")
+		os.WriteFile(cp, []byte("status sweep"), 0o644)
+		vers := []string{"1b3"}
+		if r.Thorough {
+			vers = []string{"1b3", "1b2", "1b1"}
+		}
+		for _, ver := range vers {
+			for _, st := range []int{200, 203, 204, 206, 300, 301, 404, 405, 410, 414, 501} {
+				for _, cc := range []string{"", "public"} {
+					out := filepath.Join(scratch, "status-sweep.sxg")
+					args := []string{"-uri", "https://example.com/a.txt", "-version", ver, "-status", fmt.Sprint(st), "-content", cp, "-certificate", ec256.certPEM, "-certUrl", "https://example.com/cert.cbor",
+						"-validityUrl", "https://example.com/resource.validity", "-privateKey", ec256.keys[0].path, "-expire", "24h", "-o", out}
+					if cc != "" {
+						args = append(args, "-responseHeader", "Cache-Control: "+cc)
+					}
+					key := fmt.Sprintf("status-sweep:%s:%d:%s", ver, st, cc)
+					det := map[string]any{"version": ver, "status": st, "cache_control": cc}
+					outcome := "status-sweep:ok"
+					if res := tool("gen-signedexchange", passEnv, args...); res.rc != 0 {
+						outcome = "status-sweep:GEN-FAILED"
+						violation(key+":gen", fmt.Sprintf("gen-signedexchange -version %s -status %d (Cache-Control %q) failed: %s", ver, st, cc, tail(res.out)), det)
+					} else if d := tool("dump-signedexchange", nil, "-i", out, "-cert", certCBOR[ec256], "-verify"); d.rc != 0 {
+						outcome = "status-sweep:DUMP-REJECTS"
+						violation(key+":dump", fmt.Sprintf("dump-signedexchange -verify rejects gen-signedexchange's output (%s, status %d, Cache-Control %q): %s", ver, st, cc, tail(d.out)), det)
+					}
+					os.Remove(out)
+					r.Eval(outcome)
+					r.Distinct(fmt.Sprintf("status-sweep|%s|%d|%s|%s", ver, st, cc, outcome))
+				}
+			}
+		}
+	}
+
 	// ---- (H) key and certificate files the tools have to refuse (a key type they do not support, a wrong passphrase, a
 	// certificate file that starts with another PEM block, an EC key where an Ed25519 key is needed, and the other way
 	// round): a tool may fail - but whenever it reports success, what it wrote is a valid artifact downstream, signed by
